@@ -60,15 +60,34 @@ theorem after_inj (a : Ambient) (h : a.Inj) (n k : Nat) : (a.after n k).Inj := b
     have := h.2 _ _ e
     omega
 
-/-- **A second simulation does not see the first**: run simulation A and then B in the same ambient thread
-    (B starts with the counters where A left them: A's modules and A's sleeps later); B's result and trace are
-    those of running B alone.  (The other process-global state — clock, RNG, emission buffer, event ids — is
-    overwritten by `init`, as `Builder::build` / `Sim::drop` do; see the `build-time-clock` finding.) -/
-theorem second_run_independent_of_first (a : Ambient) (h : a.Inj) (netA netB : Net)
+/-- **Leftovers do not matter**: whatever the previous simulation of the process left in the process-wide statics —
+    an ARBITRARY emission buffer `BUF_CTX.events` (everything emitted during `at_sim_end`, which is never flushed),
+    `MOD_CTX`, clock, generator, counters — the next simulation (built after the previous `Sim` was dropped: `buf_drop`
+    empties the buffer, `buf_init` and `Builder::build` reset context, clock and generator; only the id counters carry
+    on) produces the result and trace of running it alone in a fresh process. -/
+theorem second_run_independent_of_leftovers (g : Globals) (a : Ambient) (h : a.Inj) (net : Net)
+    (stream : List Nat) (fuel : Nat) :
+    runFrom g net a stream fuel = run net a stream fuel := by
+  unfold runFrom
+  rw [initFrom_eq]
+  exact run_ambient_independent net _ a (after_inj a h _ _) h stream fuel
+
+/-- **A second simulation does not see the first**: start anywhere (`g0`), run simulation A, drop it, build and run B
+    in the same process: B starts from what A left (`Globals.afterRun`: A's unflushed `at_sim_end` emissions, A's end
+    time, A's generator state, the counters advanced by A's modules and sleeps); B's result and trace are those of
+    running B alone. -/
+theorem second_run_independent_of_first (g0 : Globals) (a : Ambient) (h : a.Inj) (netA netB : Net)
     (streamA streamB : List Nat) (fuelA fuelB : Nat) :
-    run netB (a.after netA.mods.length (run netA a streamA fuelA).sleeps) streamB fuelB =
+    runFrom (g0.afterRun netA (finalSimFrom netA (a.after g0.modIds g0.sleepIds) fuelA (initFrom g0 netA a streamA)).1)
+        netB a streamB fuelB =
       run netB a streamB fuelB :=
-  run_ambient_independent netB _ a (after_inj a h _ _) h streamB fuelB
+  second_run_independent_of_leftovers _ a h netB streamB fuelB
+
+/-- what the theorem rests on: a simulation built on leftovers starts with an empty emission buffer, at time 0, with
+    the new generator (`buf_drop` / `buf_init` / `Builder::build`) -/
+theorem leftovers_are_reset (g : Globals) (net : Net) (a : Ambient) (stream : List Nat) :
+    (initFrom g net a stream).buf = [] ∧ (initFrom g net a stream).now = 0 ∧ (initFrom g net a stream).stream = stream :=
+  ⟨rfl, rfl, rfl⟩
 
 /-- the observations that consume the random stream -/
 def isRandom (o : Obs) : Bool :=
@@ -144,9 +163,9 @@ theorem restart_seed_is_next_draw (net : Net) (a : Ambient) (s : Sim) (mi : Nat)
     with a three-way `select!` (two equal deadlines), a sleep and a draw -/
 def exNet : Net :=
   { mods := [⟨"n0", 2, 0⟩, ⟨"n0.k", 1, 2⟩, ⟨"n1", 2, 1⟩],   -- = treeOrder [("n0", 2), ("n1", 2), ("n0.k", 1)]
-    links := [⟨"n0", "n1", some (2, 3)⟩, ⟨"n1", "n0", none⟩],
-    rules := [("n0", .start, [.draw, .spawn "t", .send "n1" 1]),
-              ("n1", .msg 1, [.spawn "t", .send "n0" 2]),
+    links := [⟨"n0", "n1", some (2, 3, 0)⟩, ⟨"n1", "n0", none⟩],
+    rules := [("n0", .start, [.draw, .spawn "t", .send "n1" 1 0]),
+              ("n1", .msg 1, [.spawn "t", .send "n0" 2 0]),
               ("n0", .msg 2, [.draw32])],
     tasks := [("t", [.sel [2, 2, 5], .sleep 1, .draw])],
     skipEmpty := false }
@@ -158,11 +177,11 @@ def exStream : List Nat := [0, 11, 1, 2, 0, 0, 2, 0, 0, 33, 1, 0, 44, 7, 8, 9]
 example : exAmb1.Inj := ⟨fun i j e => by simp only [exAmb1] at e; omega, fun i j e => by simp only [exAmb1] at e; omega⟩
 example : exAmb2.Inj := ⟨fun i j e => by simp only [exAmb2] at e; omega, fun i j e => by simp only [exAmb2] at e; omega⟩
 
-/-- the run is not trivial: 22 observations, 7 events, 8 sleeps created, final time 6, 12 stream elements used -/
+/-- the run is not trivial: 23 observations, 7 events, 8 sleeps created, final time 6, 12 stream elements used -/
 example : ((run exNet exAmb1 exStream 100).trace.length, (run exNet exAmb1 exStream 100).events,
     (run exNet exAmb1 exStream 100).sleeps, (run exNet exAmb1 exStream 100).time,
     (run exNet exAmb1 exStream 100).rest, (run exNet exAmb1 exStream 100).fault) =
-    (22, 7, 8, 6, [44, 7, 8, 9], none) := by decide
+    (23, 7, 8, 6, [44, 7, 8, 9], none) := by decide
 
 /-- the states of the two runs DO differ (module-tree order n0, n0.k, n1; ids in creation order) … -/
 example : (finalSim exNet exAmb1 exStream 100).1.mods.map (·.id) = [255, 257, 256]
@@ -176,9 +195,9 @@ example : (finalSim exNet exAmb2 exStream 100).1.mods.map (fun m => m.pending.ma
     from `p` makes it shut down at 2 and restart at 5; the old incarnation's sleeping task `w` is dropped -/
 def exNetR : Net :=
   { mods := [⟨"m", 1, 0⟩, ⟨"p", 1, 1⟩],
-    links := [⟨"p", "m", some (2, 0)⟩],
+    links := [⟨"p", "m", some (2, 0, 0)⟩],
     rules := [("m", .start, [.spawn "s", .spawn "w"]),
-              ("p", .start, [.send "m" 1]),
+              ("p", .start, [.send "m" 1 0]),
               ("m", .msg 1, [.draw, .restart 3])],
     tasks := [("s", [.sel [1, 1], .draw]), ("w", [.sleep 10])],
     skipEmpty := false }
@@ -195,6 +214,42 @@ example : (run exNetR exAmb2 exStreamR 100).seeds = [("m", 71), ("p", 72), ("m",
     ∧ ((run exNetR exAmb2 exStreamR 100).trace.filter (fun o => o.what == "sel")).map (fun o => (o.time, o.args)) =
         [(1, [0]), (6, [1])] := by decide
 
+/-- a simulation that leaves things behind: a channel that is busy for 4 ns per message (the second message is queued
+    and starts at 4), and in `at_sim_end` a send over that channel, a self-message and a task that does a delayed
+    send and goes to sleep -/
+def exNetA : Net :=
+  { mods := [⟨"u", 2, 0⟩, ⟨"v", 2, 1⟩],
+    links := [⟨"u", "v", some (1, 0, 4)⟩],
+    rules := [("u", .start, [.send "v" 1 0, .send "v" 1 0]),
+              ("u", .end_, [.send "v" 1 0, .sched 2 1, .spawn "t"]),
+              ("v", .msg 1, [.draw])],
+    tasks := [("t", [.send "v" 1 3, .sleep 5])],
+    skipEmpty := true }
+
+def exStreamA : List Nat := [1, 2, 3, 4, 5, 6]
+
+/-- what A leaves in the process -/
+def exLeft : Globals := Globals.fresh.afterRun exNetA (finalSim exNetA exAmb1 exStreamA 100).1
+
+/-- the leftovers are not empty: 4 unflushed events in `BUF_CTX` (exit event, unbusy notification, self-message,
+    delayed send), the clock at 9, a used generator, 2 module ids and 1 sleep id consumed; a busy channel, an
+    unfinished task and its pending wake-up die with the `Sim` -/
+example : (exLeft.buf.length, exLeft.clock, exLeft.rng, exLeft.modIds, exLeft.sleepIds) = (4, 9, some [5, 6], 2, 1)
+    ∧ (finalSim exNetA exAmb1 exStreamA 100).1.chans.map (fun c => (c.busy, c.queue.length)) = [(true, 0)]
+    ∧ (run exNetA exAmb1 exStreamA 100).unfinished = [("u", "t")]
+    ∧ (run exNetA exAmb1 exStreamA 100).left = 1 := by decide
+
+/-- the queued message started when the channel became idle (transmissions at 0, 4, and 9) -/
+example : ((run exNetA exAmb1 exStreamA 100).trace.filter (fun o => o.what == "xmit")).map (fun o => (o.time, o.args)) =
+    [(0, [1]), (4, [2]), (9, [3])] := by decide
+
+/-- if `buf_drop` kept the buffer (the seeded defect C04-r2-1 as a model variant) the next simulation WOULD see the
+    first one: one more observation, one more event -/
+theorem second_run_depends_on_kept_buffer_witness :
+    (resultOf (finalSimFrom exNetR (exAmb1.after exLeft.modIds exLeft.sleepIds) 100
+        (initFromKeepingBuffer exLeft exNetR exAmb1 exStreamR))).trace.length = 21
+    ∧ (runFrom exLeft exNetR exAmb1 exStreamR 100).trace.length = 20 := by decide
+
 /-- … and the traces agree (the instance of the theorem; its numeric part also by evaluation) -/
 example : (run exNet exAmb1 exStream 100).trace = (run exNet exAmb2 exStream 100).trace :=
   trace_ambient_independent exNet exAmb1 exAmb2
@@ -202,8 +257,8 @@ example : (run exNet exAmb1 exStream 100).trace = (run exNet exAmb2 exStream 100
     ⟨fun i j e => by simp only [exAmb2] at e; omega, fun i j e => by simp only [exAmb2] at e; omega⟩ exStream 100
 
 example : (run exNet exAmb2 exStream 100).trace.map (fun o => (o.time, o.args)) =
-    [(0, []), (0, [11]), (0, [1, 1, 1]), (0, [2, 0, 1]), (0, []), (0, []), (2, [2, 0]), (2, [0]), (3, [1, 1, 1]),
-     (3, [2, 0, 2]), (3, [0, 1, 2]), (3, [2, 0, 2]), (3, [0]), (3, []), (3, [33]), (5, [1]), (5, [1]), (6, []),
-     (6, [0]), (6, []), (6, []), (6, [])] := by decide
+    [(0, []), (0, [11]), (0, [1, 1, 1, 0]), (0, [1]), (0, [2, 0, 1]), (0, []), (0, []), (2, [2, 0]), (2, [0]),
+     (3, [1, 1, 1]), (3, [2, 0, 2, 0]), (3, [0, 1, 2]), (3, [2, 0, 2]), (3, [0]), (3, []), (3, [33]), (5, [1]), (5, [1]),
+     (6, []), (6, [0]), (6, []), (6, []), (6, [])] := by decide
 
 end C04
